@@ -55,6 +55,7 @@ type Exec struct {
 	choiceSeq    []int
 	explicitIn   []int
 	concreteMode bool
+	inInit       int
 	ld           *Loaded
 }
 
@@ -300,7 +301,9 @@ func (ex *Exec) ensureInit(p *ssa.Package) {
 	if init := p.Func("init"); init != nil && init.Blocks != nil {
 		saved := ex.conc
 		ex.conc = nil
+		ex.inInit++
 		ex.callFunction(init, nil, nil)
+		ex.inInit--
 		ex.conc = saved
 	}
 }
@@ -690,6 +693,10 @@ func (ex *Exec) binop(op token.Token, a, b Value, xt types.Type) Value {
 			case token.MUL:
 				return ts.FBin("fmul", x, y)
 			case token.QUO:
+				if ex.sess.r != nil && ex.sess.r.mode == ModeReal && !ex.sess.concrete {
+					// tier R models only finite values: a zero divisor (Inf/NaN result) must be excluded
+					ex.require("fp-div-zero", ts.Not(ts.FCmp("feq", y, ts.Float(0))), "float division by zero (tier R cannot represent the Inf/NaN result; cover this input in a bit-precise harness)")
+				}
 				return ts.FBin("fdiv", x, y)
 			case token.EQL:
 				return ts.FCmp("feq", x, y)
@@ -807,7 +814,7 @@ func (ex *Exec) convert(v Value, from, to types.Type) Value {
 
 // f2i: float64 -> integer conversion with its definedness obligation.
 func (ex *Exec) f2i(t *Term, to Sort) Value {
-	if !t.IsConst() && !ex.h.NoF2ICheck {
+	if !ex.h.NoF2ICheck && ex.inInit == 0 {
 		var lo, hi float64
 		loCmp := "flt"
 		if to.Signed {
